@@ -6,6 +6,7 @@
 package main
 
 import (
+	"math"
 	"fmt"
 	"reflect"
 	"sort"
@@ -35,6 +36,8 @@ var (
 )
 
 type KeyS struct{ A int }
+
+type KeyS2 struct{ A, B string }
 
 type dv struct {
 	v    reflect.Value
@@ -110,11 +113,17 @@ func vals(t reflect.Type, structMenu map[reflect.Type][]dv) []dv {
 		case reflect.Int32:
 			k1, k2 = reflect.ValueOf(int32(7)), reflect.ValueOf(int32(-8))
 		case reflect.Float64:
-			k1, k2 = reflect.ValueOf(1.5), reflect.ValueOf(-2.25)
+			// a NaN key cannot be looked up again: every entry is still one element, reached once
+			k1, k2 = reflect.ValueOf(math.NaN()), reflect.ValueOf(-2.25)
 		case reflect.Struct:
 			k1, k2 = reflect.ValueOf(KeyS{1}), reflect.ValueOf(KeyS{2})
+			if t.Key() == reflect.TypeOf(KeyS2{}) {
+				// two different keys that print the same
+				k1, k2 = reflect.ValueOf(KeyS2{"a b", "c"}), reflect.ValueOf(KeyS2{"a", "b c"})
+			}
 		case reflect.Interface:
-			k1, k2 = reflect.ValueOf("s"), reflect.ValueOf(7)
+			// two different keys that print the same
+			k1, k2 = reflect.ValueOf("7"), reflect.ValueOf(7)
 			k1, k2 = k1.Convert(t.Key()), k2.Convert(t.Key())
 		case reflect.Array:
 			k1, k2 = reflect.ValueOf([2]int{1, 2}), reflect.ValueOf([2]int{0, 0})
@@ -151,7 +160,7 @@ func containers(elem reflect.Type) []reflect.Type {
 		reflect.MapOf(reflect.TypeOf(int32(0)), pp),
 		// keys of less usual kinds: the element path shows the key itself
 		reflect.MapOf(reflect.TypeOf(float64(0)), p), reflect.MapOf(reflect.TypeOf(KeyS{}), elem), reflect.MapOf(reflect.TypeOf((*interface{})(nil)).Elem(), p), reflect.MapOf(reflect.TypeOf([2]int{}), elem),
-		reflect.MapOf(reflect.TypeOf(uint8(0)), elem),
+		reflect.MapOf(reflect.TypeOf(uint8(0)), elem), reflect.MapOf(reflect.TypeOf(KeyS2{}), p),
 	}
 }
 
@@ -669,7 +678,7 @@ func main() {
 	runner.Main(runner.Config{
 		Property:  "C04",
 		Technique: "bounded-exhaustive enumeration of acyclic object graphs (container grammar, depth<=3) vs walk reference model (expected clause/path list)",
-		Rule: "types: 18 containers of Leaf {T,*T,**T,[]T,[]*T,[]**T,[2]T,[2]*T,map[string]T,map[string]*T,map[int]*T,map[bool]T,map[int32]**T,map[float64]*T,map[struct]T,map[interface{}]*T,map[[2]int]T,map[uint8]T} x marks {required,exist,none} as one or two fields (+unexported incl. names starting with '_' / a CJK or non-ASCII lower-case letter, time.Time, unmarked extras), " +
+		Rule: "types: 19 containers of Leaf {T,*T,**T,[]T,[]*T,[]**T,[2]T,[2]*T,map[string]T,map[string]*T,map[int]*T,map[bool]T,map[int32]**T,map[float64]*T,map[struct]T,map[interface{}]*T,map[[2]int]T,map[uint8]T,map[struct{A,B string}]*T; NaN keys, distinct keys that print the same} x marks {required,exist,none} as one or two fields (+unexported incl. names starting with '_' / a CJK or non-ASCII lower-case letter, time.Time, unmarked extras), " +
 			"nested once more through every container of Mid (depth 3; thorough: unmarked outer fields too, and a depth-4 space over 8 container kinds per level); values: nil / zero / valid / violating nodes, collections of length 0..2 with every mix; top-level input T,*T,**T,[]T,[]*T,[2]T,map[string]*T,map[int]T; " +
 			"plus a named Parent/Mid/Leaf family structs with up to 130 fields, and self-referential chains to depth 200 through pointers, slices and maps; Leaf = {required, to=1~3, either group of two}; expected clauses from the walk model: field clauses compared in order (as a multiset when a map with >=2 entries is iterated), group clauses (reported after the walk, path-qualified per sub-object) after them as a multiset; non-trivial = a violation at depth>=2",
 		Assumptions: []string{"acyclic graphs only (statement)", "walk model internal/walk"},
